@@ -42,8 +42,11 @@ open Harper Harper.Typst
 
 /-- NO PANIC under `TreeOK`, for every byte list / text pair with as many characters as the text
 has, every inner parser that tiles its input (`PlainEnglish`: `plainEnglish_innerOK`) and every
-tree. Every `unwrap`, `expect`, `assert!` and slice of `lib.rs`, `typst_translator.rs` and
-`offset_cursor.rs` is a panic value of the model; `TreeOK` is what makes each of them unreachable. -/
+tree. Every `unwrap`, `assert!` and slice of `typst_translator.rs` and `offset_cursor.rs` is a panic
+value of the model; `TreeOK` is what makes each of them unreachable. (w22 audit: the two `expect`s of
+`lib.rs` — `Markup::from_untyped(root)` and `Parbreak::from_untyped(&buf[i])` — have NO panic value in
+the model: the root of a parsed source is `Markup` and the placeholder is built as a `Parbreak` with
+`i < len`, so they cannot fail; they are not modelled.) -/
 theorem typstParse_total (E : Env) (hin : Md.InnerOK E.inner) (hN : charCount E.bs = E.src.length)
     (top : TNodes) (h : TreeOK E.bs top) : ∃ toks, typstParse E top = .ok toks := by
   obtain ⟨toks, ht, _⟩ := typstParse_ok E hin hN top h
@@ -115,6 +118,36 @@ a paragraph break, the second text is shifted by the CHARACTER offset 4 -/
 example : typstParseSrc asciiPlus headingText headingTree =
     .ok [⟨⟨2, 3⟩, .word⟩, ⟨⟨3, 4⟩, .paragraphBreak⟩, ⟨⟨4, 8⟩, .word⟩, ⟨⟨8, 9⟩, .space 1⟩, ⟨⟨9, 10⟩, .word⟩] := by
   decide
+
+/-- non-vacuity of `typstParse_total`, `typstParse_inbounds`, `typstParse_sorted_partial` and
+`typstParseSrc_total_inbounds_sorted`: ALL hypotheses at once (`InnerOK`, the character count,
+`TreeOK`, `InOrder`) on the real tree above — five tokens, a nested node, a converted paragraph
+break, a two-byte character; the theorem applied, its conclusion concrete -/
+example : ∃ toks, typstParseSrc asciiPlus headingText headingTree = .ok toks ∧ toks.length = 5 ∧
+      (∀ t ∈ toks, t.span.start ≤ t.span.stop ∧ t.span.stop ≤ headingText.length) ∧
+      toks.Pairwise (fun a b => a.span.stop ≤ b.span.start) := by
+  obtain ⟨toks, h, hb, hs⟩ :=
+    typstParseSrc_total_inbounds_sorted asciiPlus headingText headingTree (by decide)
+  have hl : toks.length = 5 := by
+    have h2 : typstParseSrc asciiPlus headingText headingTree =
+      .ok [⟨⟨2, 3⟩, .word⟩, ⟨⟨3, 4⟩, .paragraphBreak⟩, ⟨⟨4, 8⟩, .word⟩, ⟨⟨8, 9⟩, .space 1⟩, ⟨⟨9, 10⟩, .word⟩] := by
+      decide
+    rw [h2] at h; cases h; rfl
+  exact ⟨toks, h, hl, hb, hs (by decide)⟩
+
+/-- NOT COVERED BY ANY THEOREM HERE: the property's clause "zero-width tokens are only structural
+breaks" for Typst. `TreeOK`, `NoAlias` and `InOrder` together do not give it: a node of the default
+arm with an EMPTY range (SYNTHETIC tree — no real typst-syntax tree with an empty-range expression
+is known; the clause is checked on the real parser's tokens by O only) yields a zero-width
+`Unlintable`, and all three predicates hold -/
+example : TreeOK (utf8Bytes ['a', 'b'])
+      (.ofList [.text (some (0, 1)) ['a'], .leaf .other (some (1, 1)), .text (some (1, 2)) ['b']]) ∧
+    NoAlias (.ofList [.text (some (0, 1)) ['a'], .leaf .other (some (1, 1)), .text (some (1, 2)) ['b']]) ∧
+    InOrder (envOfSrc asciiPlus ['a', 'b'])
+      (.ofList [.text (some (0, 1)) ['a'], .leaf .other (some (1, 1)), .text (some (1, 2)) ['b']]) ∧
+    typstParseSrc asciiPlus ['a', 'b']
+      (.ofList [.text (some (0, 1)) ['a'], .leaf .other (some (1, 1)), .text (some (1, 2)) ['b']]) =
+      .ok [⟨⟨0, 1⟩, .word⟩, ⟨⟨1, 1⟩, .unlintable⟩, ⟨⟨1, 2⟩, .word⟩] := by decide
 
 /-- `é = é`: a text whose byte offset (3) differs from its character offset (2) — shifting by
 `offset.byte` would put the last word at 6..7 of a 5-character text -/
@@ -339,6 +372,24 @@ theorem htmlParse_inbounds_sorted (src : List Char) (mask : List Span) (inner : 
     exact h2 u hu
   · simp only [htmlSpaceClamp, List.pairwise_map]
     exact h3.imp (by intro a b hab; rw [hspan a, hspan b]; exact hab)
+
+/-- non-vacuity of `htmlParse_inbounds_sorted`: both hypotheses at once — a HAND-MADE mask of two
+allowed spans over `a␣␣␣b<i>␣␣` (`MaskOK`) and an inner parser that answers one `Space(n)` over its
+whole chunk (`InnerOK`); the theorem applied … -/
+example : ∃ toks, htmlParse ['a', ' ', ' ', ' ', 'b', '<', 'i', '>', ' ', ' '] [⟨1, 4⟩, ⟨8, 10⟩]
+      (fun c => if c.isEmpty then [] else [⟨⟨0, c.length⟩, .space c.length⟩]) = .ok toks ∧
+      (∀ t ∈ toks, t.span.start ≤ t.span.stop ∧ t.span.stop ≤ 10) ∧
+      toks.Pairwise (fun a b => a.span.stop ≤ b.span.start) :=
+  htmlParse_inbounds_sorted _ _ _ (by
+    refine ⟨?_, by decide⟩
+    intro s hs; simp at hs; rcases hs with rfl | rfl <;> simp) (by
+    intro c
+    by_cases hc : c = [] <;> simp [hc])
+
+/-- … and what comes out: the inner tokens shifted to 1 and 8, `Space(3)` / `Space(2)` clamped -/
+example : htmlParse ['a', ' ', ' ', ' ', 'b', '<', 'i', '>', ' ', ' '] [⟨1, 4⟩, ⟨8, 10⟩]
+      (fun c => if c.isEmpty then [] else [⟨⟨0, c.length⟩, .space c.length⟩]) =
+    .ok [⟨⟨1, 4⟩, .space 1⟩, ⟨⟨8, 10⟩, .space 1⟩] := by decide
 
 /-- the clamp on the tokens of `a␣␣␣b`: `Space(3)` becomes `Space(1)` over the same three blanks -/
 example : htmlSpaceClamp [⟨⟨3, 4⟩, .word⟩, ⟨⟨4, 7⟩, .space 3⟩, ⟨⟨7, 8⟩, .word⟩, ⟨⟨8, 8⟩, .space 0⟩] =
